@@ -1,6 +1,8 @@
 package main
 
 import (
+	crand "crypto/rand"
+	"crypto/rsa"
 	"bytes"
 	stdx509 "crypto/x509"
 	"crypto/x509/pkix"
@@ -330,6 +332,51 @@ func init() {
 		corpus := loadCorpus()
 		for _, cc := range corpus.Certs {
 			check(cc.Cert, "corpus "+cc.File, map[string]interface{}{"file": cc.File})
+		}
+		// signature-algorithm substitution: the same certificate as issued by CAs holding other kinds of key (RSA,
+		// ECDSA, DSA, EdDSA, unknown) - a dimension the duplicated rules must agree on as well
+		{
+			dsaSig := []byte{0x30, 0x06, 0x02, 0x01, 0x01, 0x02, 0x01, 0x01}
+			var bases []CorpusCert
+			for i, cc := range corpus.Certs {
+				if i%25 == 0 || tier() == "thorough" {
+					bases = append(bases, cc)
+				}
+			}
+			for _, rsaLeaf := range []bool{false, true} {
+				tmpl := leafTemplate()
+				var pub interface{}
+				if rsaLeaf {
+					if k := getKit(); k.rsaKey == nil {
+						if key, err := rsa.GenerateKey(crand.Reader, 2048); err == nil {
+							k.rsaKey = key
+						}
+					}
+					if k := getKit(); k.rsaKey != nil {
+						pub = &k.rsaKey.PublicKey
+					}
+				}
+				if der, c, err := issue(tmpl, pub); err == nil {
+					bases = append(bases, CorpusCert{fmt.Sprintf("generated-leaf-rsa=%v", rsaLeaf), der, c})
+				}
+			}
+			subst := 0
+			for _, cc := range bases {
+				for _, a := range sigAlgs {
+					mut, err := replaceSigAlg(cc.DER, a.der, dsaSig)
+					if err != nil {
+						continue
+					}
+					c2, err := safeParseCert(mut)
+					if err != nil {
+						out.Count("rejected", 1)
+						continue
+					}
+					subst++
+					check(c2, "signature algorithm of "+cc.File+" replaced by "+a.name, map[string]interface{}{"file": cc.File, "sigalg": a.name, "der": hexs(mut)})
+				}
+			}
+			out.Stats["sigalg_substitutions"] = subst
 		}
 		out.Data["both_ran"] = bothRan
 		var never []string
